@@ -45,7 +45,7 @@ def gen_cl_small(rng, n, limits=False):
             t = bl.run_real('cl', data, cl, buf, mb, schedule=[1] * (d + 2), ctype=rng.choice(bl.CTYPES))
         else:
             t = bl.run_real('cl', data, cl, buf, mb, rng=rng, short_p=rng.choice([0.2, 0.6, 1.0]), ctype=rng.choice(bl.CTYPES),
-                            via=rng.choice([None, None, None, 'stream']))
+                            via=rng.choice([None, None, None, 'stream']), in_thread=rng.random() < 0.25)
         out.append(t)
     return out
 
@@ -124,7 +124,7 @@ def gen_chunked(rng, n, limits=False, big=False):
                             ctype=rng.choice([None, 'application/x-www-form-urlencoded', 'text/plain', 'application/json']), via='views')
         else:
             t = bl.run_real('chunked', inp, cl, buf, mb, rng=rng, short_p=rng.choice([0.3, 1.0]), kind=kind, expect=expect, ctype=rng.choice(bl.CTYPES),
-                            via=rng.choice([None, None, None, 'stream']))
+                            via=rng.choice([None, None, None, 'stream']), in_thread=rng.random() < 0.3)
         if kind == 'legal' and mb >= 0:
             # how much PAYLOAD the reader had taken from the stream when it answered (framing bytes not counted)
             got = sum(e[1] for e in t['ev'])
